@@ -80,7 +80,7 @@ def make_cases(i, s):
 def run(tier):
     rep = Report("C02", tier)
     s = seed()
-    n = 500 if tier == "quick" else 12000
+    n = 500 if tier == "quick" else common.tscale(12000)
     cases = []
     skipped = 0
     for i in range(n):
